@@ -1,4 +1,4 @@
-import PwVerif.Lemmas.PoolK
+import PwVerif.Lemmas.PoolT
 /-!
 # C07 — Pool.run yields exactly one result per input under every schedule and death
 
@@ -120,6 +120,35 @@ theorem C07_never_internal (c : Cfg) (hc : Plain c) (pick : List Nat → Option 
     split
     · simp
     · split <;> simp
+
+/-- **C07 progress.** From *any* state: every adversary event (a worker answering, a worker dying, the pool
+    reading a batch of queues) leaves the lexicographic measure (workers not yet closed, potential) unchanged
+    or smaller, and every *effective* event - a live worker with an input answers, a live worker dies, the
+    pool reads a batch whose first queue is ready while the loop is running - makes it strictly smaller. -/
+theorem C07_progress (c : Cfg) (hc : Plain c) (pick : List Nat → Option Nat) (hp : PickOK pick) (s : St) (ev : Ev) :
+    Dec s (step c pick s ev) ∧ (effective s ev = true → SDec s (step c pick s ev)) :=
+  step_measure hc hp s ev
+
+theorem runEvents_snoc (c : Cfg) (pick : List Nat → Option Nat) (s : St) (l : List Ev) (e : Ev) :
+    runEvents c pick s (l ++ [e]) = step c pick (runEvents c pick s l) e := by
+  induction l generalizing s with
+  | nil => rfl
+  | cons x xs ih => simp only [List.cons_append, runEvents]; exact ih _
+
+/-- **C07 terminates.** No schedule - from any state, in particular from the start of any run - contains
+    infinitely many effective events: provided every worker eventually answers or dies and the pool reads
+    what is ready, `Pool.run` comes to an end. (`evs i` is the i-th event of an infinite schedule.) -/
+theorem C07_terminates (c : Cfg) (hc : Plain c) (pick : List Nat → Option Nat) (hp : PickOK pick) (s0 : St)
+    (evs : Nat → Ev) :
+    ¬ ∀ i, effective (runEvents c pick s0 ((List.range i).map evs)) (evs i) = true := by
+  intro h
+  apply no_infinite_sdec (fun i => runEvents c pick s0 ((List.range i).map evs))
+  intro i
+  have := (step_measure hc hp (runEvents c pick s0 ((List.range i).map evs)) (evs i)).2 (h i)
+  simpa [List.range_succ, runEvents_snoc] using this
+
+/-- non-vacuity: in the start state of a run the first worker answering is an effective event -/
+example : effective (start {} pickFirst 2 [1, 2, 3]) (.work 0) = true := by decide +kernel
 
 theorem pickFirst_ok : PickOK pickFirst := by
   intro l w h
